@@ -453,8 +453,24 @@ func buildC10(e *engine, p *rt.Package) {
 						}
 						srv.mu.Unlock()
 					}
-					client := svc.NewClient("http://verif.test", rt.ClientOpts{HTTPClient: hc, ContentType: ct})
-					_, callErr := client(context.Background(), m.Name, req, rt.CallOpts{Headers: headers})
+					// the effective content type is set client-wide, per call, or per call against a different
+					// client-wide default: the error must be decoded in the content type of this call
+					copts, callOpts := rt.ClientOpts{HTTPClient: hc}, rt.CallOpts{Headers: headers}
+					switch how := rapid.SampledFrom([]string{"client", "call", "call_overrides_client"}).Draw(t, "ct_set_by"); how {
+					case "client":
+						copts.ContentType = ct
+					case "call":
+						callOpts.ContentType = ct
+					default:
+						callOpts.ContentType = ct
+						copts.ContentType = "application/json"
+						if ct == "application/json" {
+							copts.ContentType = "application/x-protobuf"
+						}
+						res.class("content_type:call_overrides_client")
+					}
+					client := svc.NewClient("http://verif.test", copts)
+					_, callErr := client(context.Background(), m.Name, req, callOpts)
 					calls := srv.taken()
 					if tr.lastReq == nil {
 						t.Fatalf("client did not send a request: %v", callErr)
